@@ -528,14 +528,16 @@ def check_cell_loop_native(p, profile='debug'):
     """VolumeIntegral through the public integrator API vs. the measure of the cell (closed form: generators on a line along x)"""
     d = {'OneD': 1, 'TwoD': 2, 'ThreeD': 3}[p['dim']]
     for prof in ('debug', 'release'):
-        o = engine.native(['cell_volumes %d' % d], prof)[0]
-        if o[0] != 'ok':
-            return 'native scenario panicked: ' + ' '.join(o[1:10])
-        vals = [float(x) for x in o[1:]]
-        n = len(vals) // 2
-        for k in range(n):
-            if abs(vals[k] - vals[n + k]) > 1e-9:
-                return 'cell %d: compute_cell_integrals::<VolumeIntegral> gives %r, the cell measure is %r [%s build]' % (k, vals[k], vals[n + k], prof)
+        for dd in sorted({d, 1, 2, 3}):
+            for sc in ('1', '1e-6', '1e-9', '1e5'):
+                o = engine.native(['cell_volumes %d %s' % (dd, sc)], prof)[0]
+                if o[0] != 'ok':
+                    return 'native scenario panicked: ' + ' '.join(o[1:10])
+                vals = [float(x) for x in o[1:]]
+                n = len(vals) // 2
+                for k in range(n):
+                    if abs(vals[k] - vals[n + k]) > 1e-9 * abs(vals[n + k]):
+                        return '%dD, length scale %s, cell %d: compute_cell_integrals::<VolumeIntegral> gives %r, the cell measure is %r [%s build]' % (dd, sc, k, vals[k], vals[n + k], prof)
     return None
 
 
